@@ -1000,7 +1000,8 @@ pub fn check_c13(tier: &str) -> i32 {
     );
     rep.bounds = json!({"depth": if rep.thorough() { 8 } else { 6 }, "handles": 2});
     check_c13_sim(&mut rep);
-    for c in ["ev:enable", "ev:disable", "ev:shutdown", "ev:drop-handle", "ev:connect-fail", "ev:connect-ok", "ev:eof", "ev:advance-to-next", "ev:submit-future"] {
+    crate::checks::lifecycle_net::net_phase(&mut rep, "C13");
+    for c in ["net-history-tcp", "net-history-tls", "ev:enable", "ev:disable", "ev:shutdown", "ev:drop-handle", "ev:connect-fail", "ev:connect-ok", "ev:eof", "ev:advance-to-next", "ev:submit-future"] {
         rep.require_class(c);
     }
     rep.finish()
